@@ -16,6 +16,7 @@ pub fn extra_scenarios() -> Vec<Scenario> {
         Scenario::FragTwin(0),
         Scenario::FragTwin(1),
         Scenario::FragTwin(2),
+        Scenario::FragTwin(3),
         Scenario::FaultEnum(0),
         Scenario::FaultEnum(1),
         Scenario::Table,
@@ -79,13 +80,21 @@ pub fn cfg_for(scn: Scenario, t: &mut Tape, extra: u64) -> RunCfg {
                 c.keepalive_s = 1;
                 c.p_no_pingresp = 1000;
             }
-            if k == 0 || k == 2 {
+            if k == 3 {
+                // long packets (2- and 3-byte remaining length) in pieces 300 ms apart; either the
+                // library's keep-alive deadline or an application-level timeout interrupts the
+                // read between the pieces
+                let app_timeout = (extra >> 8) & 1 == 1;
+                c.keepalive_s = if app_timeout { 0 } else { 1 };
+                c.p_no_pingresp = 1000;
+            }
+            if k == 0 || k == 2 || k == 3 {
                 c.p_partial_write = 0;
                 c.p_frag_read = 0;
                 c.client_id = "c".into();
                 c.will = None;
                 c.auth = None;
-                c.rx_len = 64;
+                c.rx_len = if k == 3 { 20000 } else { 64 };
                 c.tx_len = 256;
             }
             c
@@ -172,6 +181,7 @@ pub fn run_scenario(scn: Scenario, extra: u64) {
         Scenario::CancelTwin => cancel_twin(),
         Scenario::FragTwin(0) => frag_enum(extra, false),
         Scenario::FragTwin(2) => frag_enum(extra, true),
+        Scenario::FragTwin(3) => frag_long(extra),
         Scenario::FragTwin(_) => frag_twin(),
         Scenario::FaultEnum(k) => crate::scen2::fault_enum(k, extra),
         Scenario::Table => crate::scen2::table(extra),
@@ -645,7 +655,75 @@ const STREAMS: [&[u8]; 8] = [
     &[0x90, 0x04, 0x00, 0x09, 0x00, 0x00, 0xD0, 0x00],             // stale SUBACK + PINGRESP
 ];
 
+/// Streams whose first packet has a multi-byte remaining length.
+fn long_stream(i: u64) -> Vec<u8> {
+    let publish = |qos: u8, id: u16, rl: usize| -> Vec<u8> {
+        let topic = "in/l";
+        let fixed = 2 + topic.len() + if qos > 0 { 2 } else { 0 } + 1;
+        let p = Packet::Publish { dup: false, qos, retain: false, topic: topic.into(), id: (qos > 0).then_some(id), props: vec![], payload: (0..rl - fixed).map(|i| (i % 253) as u8).collect() };
+        codec::encode(&p)
+    };
+    let mut v = match i % 6 {
+        0 => publish(0, 0, 128),
+        1 => publish(1, 7, 200),
+        2 => publish(0, 0, 16383),
+        3 => publish(0, 0, 16384),
+        4 => publish(2, 9, 300),
+        _ => {
+            let mut a = publish(0, 0, 127);
+            a.extend(publish(0, 0, 129));
+            a
+        }
+    };
+    // something short behind it: swallowed if the length of the first packet is misjudged
+    v.extend([0x30, 0x05, 0x00, 0x01, b'c', 0x00, b'z', 0xD0, 0x00]);
+    v
+}
+
+/// C15: long packets in pieces with time gaps, the read interrupted between the pieces.
+fn frag_long(extra: u64) {
+    let stream = long_stream(extra >> 9);
+    let app_timeout = (extra >> 8) & 1 == 1;
+    let mask = extra & 0xFF;
+    let base = frag_once_with(&stream, None, true, None);
+    let vals = with(|w| w.tape.vals.clone());
+    let first = second_world(vals, None);
+    let twin = frag_once_with(&stream, Some(mask), true, app_timeout.then_some(100 * clock::US_PER_MS));
+    absorb(first);
+    with(|w| {
+        w.probe("twin_fragmented");
+        w.probe("long_packet_in_pieces_with_interrupted_read");
+        if base.delivered != twin.delivered {
+            w.violate(
+                "C15",
+                format!("deliveries-differ/long-packet-in-pieces/{}", if app_timeout { "application-timeout" } else { "keepalive-deadline" }),
+                format!("stream delivered at once: {} messages; in pieces 300 ms apart (mask {:#x}): {} messages", base.delivered.len(), mask, twin.delivered.len()),
+            );
+        }
+        let non_ping = |o: &TwinObs| -> Vec<String> { o.keys.iter().flatten().filter(|k| *k != "PINGREQ").cloned().collect() };
+        if non_ping(&base) != non_ping(&twin) {
+            w.violate(
+                "C15",
+                "outbound-packets-differ/long-packet-in-pieces".into(),
+                format!("at once: {:?}; in pieces: {:?}", non_ping(&base), non_ping(&twin)),
+            );
+        }
+        let fatal = |o: &TwinObs| o.results.iter().filter(|r| r.ends_with("InvalidPacket") || r.contains("Transport")).count();
+        if fatal(&base) != fatal(&twin) {
+            w.violate(
+                "C15",
+                "results-differ/long-packet-in-pieces".into(),
+                format!("at once: {:?}; in pieces: {:?}", base.results, twin.results),
+            );
+        }
+    });
+}
+
 fn frag_once(stream: &[u8], mask: Option<u64>, gaps: bool) -> TwinObs {
+    frag_once_with(stream, mask, gaps, None)
+}
+
+fn frag_once_with(stream: &[u8], mask: Option<u64>, gaps: bool, budget_us: Option<u64>) -> TwinObs {
     with(|w| {
         w.twin_mode = true;
         w.sched = Some(Tape::replay(Vec::new(), 0));
@@ -656,7 +734,7 @@ fn frag_once(stream: &[u8], mask: Option<u64>, gaps: bool) -> TwinObs {
             let mut pieces: Vec<Vec<u8>> = vec![Vec::new()];
             for (i, b) in stream.iter().enumerate() {
                 pieces.last_mut().unwrap().push(*b);
-                if mask.is_some_and(|m| (m >> i) & 1 == 1) && i + 1 < stream.len() {
+                if i < 64 && mask.is_some_and(|m| (m >> i) & 1 == 1) && i + 1 < stream.len() {
                     pieces.push(Vec::new());
                 }
             }
@@ -669,10 +747,10 @@ fn frag_once(stream: &[u8], mask: Option<u64>, gaps: bool) -> TwinObs {
     let cfg = with(|w| w.cfg.clone());
     with_session(&cfg, |s| {
         if let ConnectOutcome::Up(mut conn) = do_connect(s, false) {
-            let opts = ExecOpts { cancellable: true, idle_cancel: true, budget_us: None, timer_is_idle: !gaps };
-            for _ in 0..40 {
+            let opts = ExecOpts { cancellable: true, idle_cancel: true, budget_us, timer_is_idle: !gaps };
+            for _ in 0..(if budget_us.is_some() { 120 } else { 40 }) {
                 let r = do_wait(&mut conn, Wait::Poll, Some(opts));
-                if r == Res::Cancelled || r.is_fatal() {
+                if r.is_fatal() || (r == Res::Cancelled && (budget_us.is_none() || with(|w| w.last_cancel_idle))) {
                     break;
                 }
             }
